@@ -18,6 +18,14 @@ func vBuildInput(docs []index.Document, mode uint32, reopen bool, path string) s
 	var z ZapPlugin
 	seg, _, err := z.newWithChunkMode(docs, mode)
 	vAssert(err == nil, "input-build")
+	if vParam("gen2", 0) == 1 && len(docs) > 0 && vBool("gen2"+path) {
+		// the input is itself the result of an earlier merge (single-hit entries, byte-copied details)
+		_, _, err := z.Merge([]segment.Segment{seg}, []*roaring.Bitmap{nil}, path+".g2", nil, nil)
+		vAssert(err == nil, "input-premerge")
+		o, err := z.Open(path + ".g2")
+		vAssert(err == nil, "input-premerge-open")
+		return o
+	}
 	if !reopen {
 		return seg
 	}
@@ -87,6 +95,7 @@ func vMergeTwo(focus string) {
 	file := vFSBytes(path)
 	vAssert(size == uint64(len(file)), "size")
 	vAssert(vFSOpenHandles() == vOpenCount(s0)+vOpenCount(s1), "merge-closed")
+	vAssert(s0 != nil && s1 != nil, "inputs-alive") // (keeps the opened inputs reachable until the handle count was taken)
 	m, err := z.Open(path)
 	vAssert(err == nil, "open-merged")
 	sCheckStored(m, want, "m-")
